@@ -62,11 +62,26 @@ pub fn parse_error_to_diag<T: std::fmt::Display>(e: ParseError<usize, T, &str>) 
 }
 
 /// Run the real Preprocessor on `src` (comment stripping is the driver's job, not done here).
+thread_local! {
+    /// parser objects are expensive to build (regex compilation, 3-7 ms); one per thread is reused.
+    /// (C19 separately checks that a reused parser object answers like a fresh one.)
+    static PRE: Preprocessor = Preprocessor::new();
+}
+
 pub fn assemble(src: &str) -> Result<Asm, AsmErr> {
+    PRE.with(|p| assemble_with(p, src))
+}
+
+/// assemble with a fresh Preprocessor object
+pub fn assemble_fresh(src: &str) -> Result<Asm, AsmErr> {
+    let p = Preprocessor::new();
+    assemble_with(&p, src)
+}
+
+pub fn assemble_with(p: &Preprocessor, src: &str) -> Result<Asm, AsmErr> {
     let r = catch_unwind(AssertUnwindSafe(|| {
         let mut ctx = PreprocessorContext::default();
         let mut out = PreprocessorOutput::default();
-        let p = Preprocessor::new();
         match p.parse(&mut ctx, &mut out, src) {
             Ok(_) => {}
             Err(e) => {
